@@ -13,7 +13,7 @@ use bacon_sci::constants as k;
 use bacon_sci::constants::CODATA;
 use std::sync::Arc;
 
-const LISTING: &str = "/repo/codata.txt";
+const LISTING: &str = concat!(env!("BACON_REPO_DIR"), "/codata.txt");
 
 /// rows of the 2018 listing shipped with the pinned tree; fewer parsed rows => INCONCLUSIVE
 const ROWS_EXPECTED: usize = 354;
